@@ -24,6 +24,8 @@ THEOREMS = [
     "Ts.World.C06_world_written_once",
     "Ts.World.C06_world_kept_nodup",
     "Ts.World.C06_world_replicated_bytes_once",
+    "Ts.World.C06_world_partition_independent_bytes",
+    "Ts.World.C06_world_partition_independent_restore",
     "Ts.World.world_roundtrip",
     "Ts.World.worldEntry_rep_indep",
     "Ts.Flatten.C15_inverse",
